@@ -304,11 +304,18 @@ func (m *memo) othersHold(s routeSpec, q reqSpec) bool {
 }
 func (m *memo) methodHolds(s routeSpec, q reqSpec) bool { return m.meth[s.Match][q.Method] }
 
+// Channel handling of the resolver. Only chanStrict is the oracle; the other
+// two are hypotheses used to *name* a mismatch that a non-inbound route causes.
+const (
+	chanStrict    = iota // outbound and internal routes do not exist for ingress (the property)
+	chanBlind            // channel type ignored altogether
+	chanAllowOnly        // non-inbound routes never win but still feed the 405/Allow computation
+)
+
 // resolve returns the documented outcome: 202 and the winning route position,
-// or 405 and the Allow set, or 404. blind ignores the channel type (used only
-// to name the class of a mismatch, never as the oracle).
-func (m *memo) resolve(routes []routeSpec, q reqSpec, blind bool) (int, int, []string) {
-	return m.resolveFlipped(routes, q, blind, -1, 0)
+// or 405 and the Allow set, or 404.
+func (m *memo) resolve(routes []routeSpec, q reqSpec) (int, int, []string) {
+	return m.resolveHyp(routes, q, chanStrict, 0, 0)
 }
 
 const (
@@ -318,23 +325,23 @@ const (
 	nCrit
 )
 
-// resolveFlipped is resolve with the verdict of one criterion of one route
-// negated (flipRoute < 0: none). It is used only to name a mismatch after the
-// single criterion that explains it.
-func (m *memo) resolveFlipped(routes []routeSpec, q reqSpec, blind bool, flipRoute, flipCrit int) (int, int, []string) {
+// resolveHyp is resolve under a hypothesis: a channel mode other than
+// chanStrict, and/or the verdict of one criterion negated on the routes in the
+// bit mask flip (0: none). Hypotheses only name the class of a mismatch.
+func (m *memo) resolveHyp(routes []routeSpec, q reqSpec, mode int, flip uint, flipCrit int) (int, int, []string) {
 	var allow []string
 	for i, s := range routes {
-		if !blind && !s.inbound() {
+		if !s.inbound() && mode == chanStrict {
 			continue // outbound and internal routes are never reachable from ingress
 		}
 		v := [nCrit]bool{m.pathHolds(s, q), m.othersHold(s, q), m.methodHolds(s, q)}
-		if i == flipRoute {
+		if flip>>uint(i)&1 == 1 {
 			v[flipCrit] = !v[flipCrit]
 		}
 		if !v[critPath] || !v[critOthers] {
 			continue
 		}
-		if v[critMethod] {
+		if v[critMethod] && (s.inbound() || mode == chanBlind) {
 			return http.StatusAccepted, i, nil
 		}
 		for _, x := range routeMethods(shapeCriteria[s.Match]) {
